@@ -22,7 +22,8 @@ MANIFEST = dict(
     technique="TLA+ refinement check with TLC + TLC-generated schedules replayed into Rust + TLC trace validation against measured tables",
 )
 
-KINDS = ["smh_f64_fnv", "smh_f32_fnv", "smh_f64_no", "smh_f32_no", "smh2_u64_fnv", "smh2_u64_no", "smh2_u32_xx", "ss_u16", "ss_u32"]
+KINDS = ["smh_f64_fnv", "smh_f32_fnv", "smh_f64_no", "smh_f32_no", "smh2_u64_fnv", "smh2_u64_no", "smh2_u32_xx", "ss_u16", "ss_u32",
+         "smh_f64_no32", "smh2_u64_no32"]
 
 
 def run(chk):
